@@ -22,7 +22,7 @@ LEVEL = 'exploration'
 RULE = ('Cases: (library cell, connected pin subset, composition) / (implementation shape, pin subset) / (random hierarchical circuit, composition). Non-trivial iff '
         'the observed function depends on >= 2 sources or a pin is left unconnected. Distinct = digest of all case fields.')
 ASSUMPTIONS = ['the function is not compared when an open instance pin is the trailing operand of an AND/NAND primitive (reads-0 vs. pin-absent is not decided by the property)',
-               'an unconnected instance input pin reads constant 0; a sequential cell keeps at least one output connected (a fully dangling flip-flop may be pruned)',
+               'an unconnected instance input pin reads constant 0',
                'implementations without outputs contain no gates (as in the built-in libraries)',
                'eliminate_1to1_forks is only applied when every single-reader fork is driven']
 REACH = {'circuit.substitute': ('circuit.py', 373, 450), 'circuit.eliminate': ('circuit.py', 347, 372), 'circuit.copy_pickle': ('circuit.py', 455, 497)}
@@ -114,7 +114,7 @@ def compare(ctx, case, c, flat, label, removed_nodes, rerun_without=None):
     val = G.eval_net(flat, assign, mask)
     exp = G.observed(flat, val)
     row = {nm: i for i, nm in enumerate(got_names)}
-    if not exp:
+    if not exp or len(c.lines) == 0:
         ctx.count('nothing_observable')
         return True          # no output and no state element left to observe (a circuit without operations is outside the simulators' domain)
     sim = LogicSim(c, sims=n, m=2)
@@ -153,9 +153,6 @@ def lib_case(ctx, libname, cell, cd, conn_in, conn_out, ops):
     ok = False
     with ctx.guard('transformation-raises', case):
         c, flat = H.build_host(hnet, [libname])
-        if not conn_out:
-            # nothing observable remains: the property only demands that resolving succeeds and ports stay
-            flat['ffs'] = []
         c2, removed = apply_ops(c, ops, [libname], ctx)
 
         def rerun():
@@ -192,8 +189,6 @@ def lib_shard(ctx, spec):
         for sub in subsets:
             if outs:
                 osub = {p for p in outs if rng.random() < 0.7}
-                if is_seq and not osub:
-                    osub = {rng.choice(outs)}
             else:
                 osub = set()
             combos.append((sub, osub))
@@ -310,7 +305,7 @@ def hier_case(ctx, rng, idx):
             is_seq = any(H.kind_to_fam(kk)[1] for _, kk, _ in cd['stmts'])
             inst = {'name': f'u{k}', 'lib': libname, 'cell': cell, 'in': {p: (rng.choice(sigs) if rng.random() < 0.85 else None) for p in cd['ins']},
                     'out': {p: rng.random() < 0.8 for p in cd['outs']}}
-            if cd['outs'] and (is_seq or rng.random() < 0.8) and not any(inst['out'].values()):
+            if cd['outs'] and rng.random() < 0.8 and not any(inst['out'].values()):
                 inst['out'][rng.choice(cd['outs'])] = True
             hnet['items'].append(inst)
             sigs += [f'u{k}~{p}' for p in cd['outs'] if inst['out'][p]]
@@ -328,6 +323,11 @@ def hier_case(ctx, rng, idx):
     if 'resolve' not in ops:
         ops.insert(rng.randint(0, len(ops)), 'resolve')
     case = {'kind': 'hier', 'hnet': hnet, 'ops': ops, 'lib': libname}
+    hier_check(ctx, case, idx)
+
+
+def hier_check(ctx, case, idx):
+    hnet, ops, libname = case['hnet'], case['ops'], case['lib']
     ctx.count('hier_cases')
     with ctx.guard('transformation-raises', case):
         c, flat = H.build_host(hnet, [libname])
@@ -382,8 +382,10 @@ def replay(case, ctx):
         lib_case(ctx, case['lib'], case['cell'], cd, set(case['in']), set(case['out']), case['ops'])
     elif k == 'witness':
         witness(ctx)
+    elif k == 'hier':
+        hier_check(ctx, case, 99)
     else:
-        # shape / hier cases are regenerated from their shard seeds by the quick tier; replay re-runs a fixed sample
+        # shape cases are regenerated from their shard seeds by the quick tier; replay re-runs a fixed sample
         for i in range(300):
             rng = random.Random(f'C10replay/{i}')
-            (shape_case if k == 'shape' else hier_case)(ctx, rng, 99)
+            shape_case(ctx, rng, 99)
